@@ -64,6 +64,7 @@ pub const STR_POOL: &[&str] = &[
     "", "a", "b", "ab", "abc", "bad", "!x", "!", "x", "0", "1", "-1", "255", "256", "+5", "05", "true", "null",
     "hello", "Hello", "HELLO", "é", "ß", "日本", "a\u{301}", "🥺", "a,b", "1,2,3", ",,1,,", "1,x", " ", "a b",
     "a.b", "a[0]", "`", "\"", "\\", "\n", ".a", ".", "..", "a.", "[1]", "$id", "-", " asc", "asc ", "\tx",
+    "\u{1b}[31mred\u{1b}[0m", "\u{0}", "a\u{7f}b", "\r\n", "\u{feff}x", "\u{200b}",
 ];
 
 pub const PLAIN_STR_POOL: &[&str] = &[
